@@ -383,7 +383,12 @@ def rule_r3(ck, prog, rule='C10.R3', cls='opentelemetry::context::ThreadLocalCon
             r = g.reachable_from(g.entry, avoid=resz, avoid_edges=no_grow_edge)
             ok = ok and w.id not in r
             why = 'Resize guarded by "old size reached capacity" with %s increment(s) before it: %s' % (kc, ok)
-    ck.verdict(ok, rule, push, 'push-shape', writes[0].n if writes else None,
+    if not ok and not (len(incs) >= 1 and len(writes) == 1 and len(resz) == 1):
+        # the counter is not advanced by ++ / += (e.g. `size_ = required;`), or slot write / Resize are arranged differently: the
+        # relational model of this rule (number of pending increments) does not apply - not decided
+        ck.inconclusive(rule, push, 'push-shape', writes[0].n if writes else None, 'Push does not advance size_ by an increment / has no single slot write and Resize call: the pending-increment model does not apply')
+    else:
+        ck.verdict(ok, rule, push, 'push-shape', writes[0].n if writes else None,
                'one increment per path; first free slot written; grows exactly when the old size reached the capacity' if ok else
                'Push does not count once, store into the first free slot and grow when the old size reached the capacity (%s): frames are overwritten or written out of bounds' % why)
     for name in ('Pop', 'Top'):
@@ -403,6 +408,9 @@ def rule_r3(ck, prog, rule='C10.R3', cls='opentelemetry::context::ThreadLocalCon
             decs = [p for p in g.points if p.n is not None and ((p.n['k'] == 'binop' and p.n['op'] == '-=') or (p.n['k'] == 'unop' and p.n['op'] == '--'))
                     and access_path(sf, p.n.get('lhs', p.n.get('e'))) == ('this', 'size_')]
             ok = ok and len(decs) == 1 and g.must_pass_edge(decs[0], nonempty_edge)
+        if not subs:
+            ck.inconclusive(rule, sf, '%s-behind-not-empty' % name.lower(), None, '%s does not address the top frame by a subscript (a pointer / helper is used): not decided' % name)
+            continue
         ck.verdict(ok, rule, sf, '%s-behind-not-empty' % name.lower(), subs[0].n if subs else None,
                    '%s touches slot size_-1 only behind the not-empty edge' % name if ok else
                    '%s can touch a slot of an empty stack or a slot other than size_-1' % name)
